@@ -674,6 +674,19 @@ func (s *Sim) call(fr *frame, t *Trace, x *ssa.Call) []string {
 			return setRes(res)
 		}
 	}
+	// interface methods all of whose implementations are pure single-block
+	// functions (rpcType(), getTerm(), getResult()) are deterministic in their receiver
+	if com.IsInvoke() && len(callees) > 0 && nres == 1 {
+		pure := true
+		for _, c := range callees {
+			if !s.P.inRepo(c) || !inlinable(c) {
+				pure = false
+			}
+		}
+		if pure {
+			return setRes([]string{"invoke:" + com.Method.Name() + "(" + strings.Join(args, ", ") + ")"})
+		}
+	}
 	// inline pure single-block helpers
 	if len(callees) == 1 && s.P.inRepo(callees[0]) && inlinable(callees[0]) {
 		callee := callees[0]
